@@ -7,6 +7,7 @@ import re
 from fractions import Fraction
 from . import common as C
 from . import c05
+from . import c03
 
 HEADER = c05.HEADER + """
 From VZ Require Import Model.C14_MaskKernel.
@@ -141,14 +142,51 @@ def gen_window(rng):
             "window_function": "variable" if rng.random() < 0.12 else "fixed"}
 
 
+P_HISTORY = 0.4
+BIG_RADII = [32767, 32768, 40000, 2 ** 31 - 1]
+
+
+def boundary_window(rng, w, docs):
+    """Radii at the ends of the longest sequence and beyond the int16/int32 limits; offsets at / after the window."""
+    L = max(len(d) for d in docs)
+    if w.get("window_function", "fixed") == "fixed" and rng.random() < 0.3:
+        w["radius"] = rng.choice([0, max(L - 1, 0), L, L + 1] + BIG_RADII)
+    if rng.random() < 0.15:
+        R = min(w["radius"], 30)
+        w["offset"] = rng.choice([R, R + 1, max(R - 1, 0)])
+    return w
+
+
+def gen_history(rng, c, tree=False):
+    """The estimator's past: another corpus (other vocabulary size; the tokens removed in the case occur too, also in
+    runs), fitted on the same object, then used for transform."""
+    vocab = rng.sample(c05.STR_VOCAB, rng.choice([1, 2, 4, 7, 10]))
+    removed = sorted(c["prune"].get("excluded") or [])[:2]
+    pool = vocab + removed * 2
+    docs = [rng.choices(pool, k=rng.choice([1, 2, 4, 8])) for _ in range(rng.choice([1, 2, 3]))]
+    if removed and rng.random() < 0.6:
+        docs.append([removed[0]] * 3 + [vocab[0]])
+    h = {"docs": docs, "how": rng.choice(["fit", "fit_transform"]), "transform": None}
+    if rng.random() < 0.6:
+        h["transform"] = [rng.choices(pool + ["new1"], k=rng.randint(1, 6))]
+    if tree:
+        as_tree = lambda d: {"parents": [-1] + [rng.randint(0, i - 1) for i in range(1, len(d))], "labels": d}
+        h["docs"] = [as_tree(d) for d in h["docs"]]
+        if h["transform"] is not None:
+            h["transform"] = [as_tree(d) for d in h["transform"]]
+    return h
+
+
 def gen_cooc(rng):
     docs, vocab = gen_docs(rng)
     if len({t for d in docs for t in d}) < 2:
         docs.append(list(vocab[:2]))
-    c = {"kind": "cooc", "docs": docs, "prune": gen_prune(rng, docs), "window": gen_window(rng), "mask": MASK,
-         "transform_docs": None}
+    c = {"kind": "cooc", "docs": docs, "prune": gen_prune(rng, docs), "window": boundary_window(rng, gen_window(rng), docs),
+         "mask": MASK, "transform_docs": None}
     if rng.random() < 0.3:
         c["transform_docs"] = [rng.choices(vocab + ["new1", "new2"], k=rng.randint(1, 8)) for _ in range(rng.randint(1, 2))]
+    if rng.random() < P_HISTORY:
+        c["history"] = gen_history(rng, c)
     return c
 
 
@@ -164,9 +202,19 @@ def gen_tree(rng):
             parents = [-1] + [rng.randint(0, i - 1) if rng.random() < 0.9 else -1 for i in range(1, len(d))]
         trees.append({"parents": parents, "labels": d})
     p = gen_prune(rng, docs, allow_unique=False)
-    return {"kind": "tree", "trees": trees, "docs": docs, "prune": p, "mask": MASK,
-            "window": {"radius": rng.choice([1, 2, 3]), "kernel": rng.choice(["flat", "harmonic", "geometric"]),
-                       "orientation": rng.choice(["before", "after", "symmetric", "directional"])}}
+    depth = max(len(d) for d in docs)
+    c = {"kind": "tree", "trees": trees, "docs": docs, "prune": p, "mask": MASK,
+         "window": {"radius": rng.choice([1, 2, 3, 1, 2, 3, max(depth - 1, 1), depth, depth + 1]),
+                    "kernel": rng.choice(["flat", "harmonic", "geometric"]),
+                    "orientation": rng.choice(["before", "after", "symmetric", "directional"])}}
+    if rng.random() < 0.3:
+        c["transform_trees"] = []
+        for _ in range(rng.randint(1, 2)):
+            lab = rng.choices(vocab + ["new1"], k=rng.randint(1, 7))
+            c["transform_trees"].append({"parents": [-1] + [rng.randint(0, i - 1) for i in range(1, len(lab))], "labels": lab})
+    if rng.random() < P_HISTORY:
+        c["history"] = gen_history(rng, c, tree=True)
+    return c
 
 
 def gen_ngram(rng):
@@ -182,7 +230,111 @@ def gen_ngram(rng):
          "transform_docs": None}
     if rng.random() < 0.5:
         c["transform_docs"] = [rng.choices(vocab + ["new1", "new2"], k=rng.randint(0, 8)) for _ in range(rng.randint(1, 3))]
+    if rng.random() < P_HISTORY:
+        c["history"] = gen_history(rng, c)
     return c
+
+
+FAMILY_MODES = ("delete", "mask", "nullify")
+
+
+def gen_family(rng):
+    """The other members of the co-occurrence family (n-gram, timed, multiset; token too) in the three modes, in the
+    C03 case format: a C03-style corpus and window/kernel setting, a pruning setting that removes >= 1 and keeps >= 1
+    occurring token, 50% on an estimator with a past, 30% followed by a transform (unseen tokens -> mask)."""
+    kind = rng.choice(["ngram", "ngram", "timed", "multi", "token"])
+    while True:
+        base = c03.gen_case_plain(rng, kind)
+        kw = base["kw"]
+        for k in ("excluded_tokens", "mask_string", "nullify_mask"):
+            kw.pop(k, None)
+        cnt = {}
+        for d in c03.tokens_of(base):
+            for t in d:
+                cnt[t] = cnt.get(t, 0) + 1
+        if len(cnt) >= 2:
+            break
+    toks, vals = sorted(cnt), sorted(set(cnt.values()))
+    if kind != "ngram" and len(vals) >= 2 and rng.random() < 0.3:     # (occurrence bounds also prune the n-gram rows)
+        if rng.random() < 0.5:
+            kw["min_occurrences"] = rng.choice(vals[1:])
+        else:
+            kw["max_occurrences"] = rng.choice(vals[:-1])
+    else:
+        kw["excluded_tokens"] = rng.sample(toks, rng.randint(1, len(toks) - 1)) + (["zzz"] if rng.random() < 0.2 else [])
+    c03.apply_boundaries(rng, base)
+    f = {"kind": "family", "base": base, "history": None, "then": None}
+    if rng.random() < (0.7 if kind == "ngram" else 0.5):
+        f["history"] = c03.gen_history(rng, base)
+    if rng.random() < 0.3:
+        f["then"] = c03.gen_then(rng, base)
+    return f
+
+
+def family_cases(f):
+    import copy
+    out = []
+    for mode in FAMILY_MODES:
+        c = copy.deepcopy(f["base"])
+        if mode != "delete":
+            c["kw"]["mask_string"] = MASK
+        if mode == "nullify":
+            c["kw"]["nullify_mask"] = True
+        for k in ("history", "then"):
+            if f.get(k):
+                c[k] = copy.deepcopy(f[k])
+        out.append(c)
+    return out
+
+
+def oracle_family(f, cases, results):
+    """Every mode against the pointwise definition (c03.spec: delete = definition on the sequences without the removed
+    tokens; mask = on the sequences with the mask in their place; nullify = the latter with the mask's kernel weights
+    zeroed before any normalisation, no window for the mask row), plus the statements of C14 between the modes."""
+    fails, outs = [], {}
+    stats = {k: 0 for k in c03.STAT_KEYS}
+    for mode, c, r in zip(FAMILY_MODES, cases, results):
+        msgs = []
+        tmp = C.Ctx("C14", "quick", 0)
+        tmp.report = lambda what, replay=None, found_input=True, finding_key=None, msgs=msgs: msgs.append(what)
+        tmp.count_case = lambda *a, **k: None
+        c03.judge(tmp, c, r, None, stats)
+        fails += ["%s mode: %s" % (mode, m) for m in msgs]
+        outs[mode] = r.get("ok")
+    if fails or not all(outs.values()):
+        return fails, stats
+    kind, kw = f["base"]["kind"], f["base"]["kw"]
+    vd, vm, vn = (outs[m]["vocab"] for m in FAMILY_MODES)
+    n = len(vd)
+    exp = dict(vd)
+    exp[MASK] = n
+    if vm != exp or list(vm)[-1] != MASK:
+        fails.append("mask mode: dictionary %r is not the vocabulary %r plus the mask last" % (vm, vd))
+    if vn != exp or list(vn)[-1] != MASK or outs["nullify"]["mask_index"] != n:
+        fails.append("nullify: dictionary / mask index wrong: %r, %r" % (vn, outs["nullify"]["mask_index"]))
+    if fails:
+        return fails, stats
+    mask_row = n
+    if kind == "ngram":
+        mask_row = outs["nullify"]["ngrams"].get("_".join([MASK] * int(kw.get("ngram_size", 2))))
+    for what, tr in (("nullify_mask", outs["nullify"]["triples"]),
+                     ("transform, nullify_mask", outs["nullify"].get("then", {}).get("triples", []))):
+        bad = [(r, c) for r, c, v in tr if c % (n + 1) == n]
+        if bad:
+            fails.append("%s: column(s) of the mask not zero: cells %r" % (what, bad[:4]))
+        bad = [(r, c) for r, c, v in tr if r == mask_row]
+        if bad:
+            fails.append("%s: the mask's row %r is not zero: cells %r" % (what, mask_row, bad[:4]))
+    ka = kw.get("kernel_args") or {}
+    normalised = kw.get("normalize_windows", True) or any(a.get("normalize") for a in ([ka] if isinstance(ka, dict) else ka))
+    if not normalised:
+        a = {(r, c): v for r, c, v in outs["mask"]["triples"] if c % (n + 1) != n and r != mask_row}
+        b = {(r, c): v for r, c, v in outs["nullify"]["triples"]}
+        diff = [k for k in sorted(set(a) | set(b)) if not close(a.get(k, 0.0), b.get(k, 0.0))]
+        if diff:
+            fails.append("nullify_mask differs from the masked run with the mask row/columns removed at %r: %r vs %r"
+                         % (diff[0], b.get(diff[0], 0.0), a.get(diff[0], 0.0)))
+    return fails, stats
 
 
 def gen_kernel(rng):
@@ -193,7 +345,7 @@ def gen_kernel(rng):
     return {"kind": "kernel", "kernel": rng.choice(["flat", "harmonic", "geometric"]),
             "power": rng.choice([[1, 2], [9, 10], [3, 4], [1, 1]]), "window": [rng.choice(list(range(ntok)) + [ntok]) for _ in range(L)],
             "mask_index": ntok if nullify else None, "normalize": rng.random() < 0.5, "offset": rng.choice([0, 0, 1, 2, 4]),
-            "size": rng.choice([0, 1, 2, 3, 5]), "ntok": ntok, "seq": seq, "reverse": rng.random() < 0.5,
+            "size": rng.choice([0, 1, 2, 3, 5, 0, 1, 2, 3, 5, len(seq), 32768, 40000]), "ntok": ntok, "seq": seq, "reverse": rng.random() < 0.5,
             "normalize_windows": rng.random() < 0.5, "events": rng.random() < 0.5}
 
 
@@ -305,6 +457,15 @@ def oracle_tree(c, g):
     d = mat_diff(g["nullify"], ref)
     if d:
         fails.append("nullify_mask differs from the relabelled run with the mask row/columns removed: " + d)
+    if c.get("transform_trees") is not None and "mask_transform" in g:
+        d = mat_diff(g["mask_transform"], g["mask_transform_ref"])
+        if d:
+            fails.append("transform in mask mode differs from the transform of explicitly relabelled trees: " + d)
+        fails += zero_row_cols(g["nullify_transform"], n, n + 1, nb, "transform, nullify_mask")
+        ref = [[0.0 if (r == n or cc % (n + 1) == n) else x for cc, x in enumerate(row)] for r, row in enumerate(g["mask_transform_ref"])]
+        d = mat_diff(g["nullify_transform"], ref)
+        if d:
+            fails.append("transform with nullify_mask differs from the relabelled transform with the mask row/columns removed: " + d)
     return fails
 
 
@@ -333,7 +494,7 @@ def oracle_ngram(c, g):
 # ------------------------------------------------------------------------------------------ Coq side
 def coq_kernel_case(c):
     k = {"flat": "Flat", "harmonic": "Harmonic"}.get(c["kernel"]) or "(Geometric (%d # %d)%%Q)" % tuple(c["power"])
-    nat = lambda x: "%d%%nat" % x
+    nat = lambda x: "%d%%nat" % x if x <= 200 else "(Z.to_nat %d)" % x
     nl = lambda l: "[" + "; ".join(nat(x) for x in l) + "]"
     mask = "None" if c["mask_index"] is None else "(Some %s)" % nat(c["mask_index"])
     return "kcase %s %s %s %s %s %s %s %s %s (1 # 1)%%Q %s" % (
@@ -437,33 +598,50 @@ def run(ctx, replay=None):
     C.run_gate(ctx)
     rng = ctx.rng
     ctx.coverage["rule"] = ("random corpora x pruning settings that remove >= 1 token (excluded tokens, regex, min/max "
-                            "occurrences, max_unique_tokens) x mask None | mask | mask+nullify x radius/orientation/"
-                            "kernel/normalisation/offset; trees: paths and random forests; kernels called directly; "
+                            "occurrences, max_unique_tokens) x mask None | mask | mask+nullify x radius (also 0, len-1, len, "
+                            "len+1, 32767, 32768, 40000, 2^31-1) / orientation / kernel / normalisation / offset (also = / > "
+                            "the window); trees: paths and random forests, radius up to depth+1, transform of other trees; "
+                            "kernels called directly (window sizes up to 40000); the n-gram, timed, multiset (and token) "
+                            "co-occurrence vectorizers in the three modes against the pointwise definition (C03 case format); "
+                            "40-50% of the estimator-level cases on an estimator with a past (same object fitted on another "
+                            "corpus with runs of removed tokens and used for transform); "
                             "non-trivial = at least one token pruned and one kept")
     ctx.assumptions += ["matrices compared with tolerance 1e-6 + 2e-5 relative (float32 accumulation)",
                         "equality with explicitly deleted/masked runs only for window_functions='fixed' (variable "
                         "radii depend on the frequency table, which differs between the two runs); zero row/columns "
-                        "are checked for both", "n_iter = 0, epsilon = 0, mix_weights = 1",
+                        "are checked for both", "n_iter = 0, epsilon = 0; mix_weights = 1 except in the family stream",
+                        "the family stream (n-gram / timed / multiset co-occurrence) runs interpreted (NUMBA_DISABLE_JIT=1: python "
+                        "semantics of the same source); the compiled drivers are exercised by C03",
                         "geometric kernel compared at power 0.9 (oracle) and rational powers (model)"]
     if replay:
         rc = replay["case"]
         groups = {"oracle": [rc] if rc.get("kind") in ("cooc", "tree", "ngram") else [],
                   "kernel": [rc] if rc.get("kind") == "kernel" else [],
-                  "reindex": [rc] if rc.get("kind") == "vocab" else []}
+                  "reindex": [rc] if rc.get("kind") == "vocab" else [],
+                  "family": [rc] if rc.get("kind") == "family" else []}
     else:
-        no, nk, nr = (70, 150, 250) if ctx.quick else (900, 2500, 4000)
+        no, nk, nr, nf = (70, 150, 250, 160) if ctx.quick else (900, 2500, 4000, 2000)
         oc = CORPUS + [(gen_cooc if i % 10 < 5 else gen_tree if i % 10 < 7 else gen_ngram)(rng) for i in range(no)]
-        groups = {"oracle": oc, "kernel": [gen_kernel(rng) for _ in range(nk)], "reindex": reindex_cases(rng, nr)}
+        groups = {"oracle": oc, "kernel": [gen_kernel(rng) for _ in range(nk)], "reindex": reindex_cases(rng, nr),
+                  "family": [gen_family(rng) for _ in range(nf)]}
+    fam_cases = [c for f in groups["family"] for c in family_cases(f)]
     from concurrent.futures import ThreadPoolExecutor
     with ThreadPoolExecutor(max_workers=5) as ex:
         f_or = ex.submit(C.run_impl, "c14", groups["oracle"]) if groups["oracle"] else None
         f_k = ex.submit(C.run_impl, "c14", groups["kernel"]) if groups["kernel"] else None
         f_r = ex.submit(C.run_impl, "c05", {"mode": "cases", "cases": groups["reindex"]}) if groups["reindex"] else None
+        f_f = ex.submit(c03.delayed_impl, 0.3, fam_cases, {"NUMBA_DISABLE_JIT": "1"}) if fam_cases else None
         f_mk = ex.submit(C.coq_eval_sharded, "C14k", HEADER, [coq_kernel_case(c) for c in groups["kernel"]], 200)
         f_mr = ex.submit(C.coq_eval_sharded, "C14r", HEADER, [coq_reindex_case(c) for c in groups["reindex"]], 250)
         res = {"oracle": f_or.result() if f_or else ([], {}), "kernel": f_k.result() if f_k else ([], {}),
                "reindex": f_r.result() if f_r else ([], {})}
+        fam_res, fam_info = f_f.result() if f_f else ([], {})
         mk, mr = f_mk.result(), f_mr.result()
+    if fam_res is None or len(fam_res) != len(fam_cases):
+        done = len(fam_res) if fam_res else 0
+        ctx.report("implementation child (family) died (rc=%s) on case %d: %s" % (fam_info.get("rc"), done, fam_info.get("tail", "")[-400:]),
+                   {"stage": "impl-crash", "case": groups["family"][done // 3] if done // 3 < len(groups["family"]) else None}, found_input=True)
+        fam_res = (fam_res or []) + [{"err": "crash"}] * (len(fam_cases) - done)
     for name in res:
         got, info = res[name]
         if got is None or len(got) != len(groups[name]):
@@ -493,6 +671,23 @@ def run(ctx, replay=None):
         if fails:
             ctx.report("%s: %s" % (c["kind"], "; ".join(fails[:3])), {"stage": "oracle", "case": c, "failures": fails,
                                                                       "actual": {k: g[k] for k in g if k.endswith("dict") or k == "vocab"}})
+    fam_stats = {k: 0 for k in c03.STAT_KEYS}
+    for j, f in enumerate(groups["family"]):
+        cs, rs = fam_cases[3 * j:3 * j + 3], fam_res[3 * j:3 * j + 3]
+        fails, st = oracle_family(f, cs, rs)
+        for k in st:
+            fam_stats[k] += st[k]
+        ctx.count_case(f, nontrivial=all("ok" in r for r in rs),
+                       kind="family:%s%s%s" % (f["base"]["kind"], "+past" if f.get("history") else "", "+then" if f.get("then") else ""))
+        n_or += 1
+        if fails:
+            ctx.report("co-occurrence family (%s)%s: %s" % (f["base"]["kind"], c03.past_note(cs[0]), "; ".join(fails[:3])),
+                       {"stage": "oracle", "case": f, "failures": fails, "as_c03_cases": cs})
+    ctx.coverage["family"] = {"families": len(groups["family"]), "child_wall_s": fam_info.get("wall_s"), "fits_on_an_estimator_with_a_past": fam_stats["with_past"],
+                              "matrices_equal_to_the_pointwise_definition": fam_stats["oracle_ok"],
+                              "later_transforms_judged": fam_stats["then_ok"], "no_kept_token_or_ngram": fam_stats["expected_error"]}
+    ctx.coverage["call_histories"] = {"token/tree/NgramVectorizer cases with a past": sum(1 for c in groups["oracle"] if c.get("history")),
+                                      "family cases with a past": sum(1 for f in groups["family"] if f.get("history"))}
     corr_bad, n_corr = [], 0
     for c, g, m in zip(groups["kernel"], res["kernel"][0], mk):
         ctx.count_case(c, nontrivial=bool(c["window"]) or bool(c["seq"]), kind="kernel:" + c["kernel"] + (":nullify" if c["mask_index"] is not None else ""))
